@@ -270,6 +270,7 @@ func init() {
 		return nil
 	})
 	reg(vrtPath+"Symbolic", func(in *Interp, fr *frame, a []Value) Value { return tTrue })
+	reg(vrtPath+"RaceRetry", func(in *Interp, fr *frame, a []Value) Value { return tFalse })
 	reg(vrtPath+"IsConcrete", func(in *Interp, fr *frame, a []Value) Value {
 		t, ok := a[0].(Iface)
 		if ok {
